@@ -3,7 +3,10 @@ PROP = dict(
     technique="exhaustive enumeration (bounded window) + property-based testing (rapid): view decomposition vs an independent interval parser; API results vs a timestamp model",
     level_text="For all 10 valid quanta, every range aligned to the quantum's finest unit with a start in a multi-year window containing a leap year "
                "and a bounded length is enumerated: the views returned by viewsByTimeRange are decoded by the harness's own name parser and must be "
-               "pairwise disjoint, use only units of the quantum and cover exactly [start,end); random long ranges (years apart) are added by rapid. "
+               "pairwise disjoint, use only units of the quantum and cover exactly [start,end); a second exhaustive unit enumerates every pair of endpoints that lie "
+               "within 2 finest units of a coarser-unit boundary (1 Jan, 31 Dec, first/last day of each month, 28/29 Feb, 1 Mar) over a leap year and its neighbours with spans "
+               "up to 3 years (ranges ending or starting just short of a year/month boundary a whole number of coarser units away); random long ranges (years apart, a third of "
+               "them with both endpoints near such boundaries in any year 2015-2025) are added by rapid. "
                "Every view name of every hour of the window (all 24 hours, Y/M/D/H names) must map back through timeOfView to the start and the end of "
                "the interval it denotes; minMaxViews must bracket the view list a time field really has (including the view 'standard'). At API level "
                "bits set with timestamps through Set and Import are read with Row(f=r, from, to) and Rows(f, from, to) and compared with the model "
@@ -11,8 +14,9 @@ PROP = dict(
     level_note="Trusted: Go toolchain (time.Date normalisation), rapid, the 60-line interval parser in gt_timekit_test.go. Open-ended ranges (missing from or to) depend "
                "on the wall clock and are excluded. Ranges not aligned to the finest unit are outside the property statement.",
     rule="window: (quantum, start, length) triples, start aligned to the finest unit (H: hourly 2019-11..2021-03, quick tier +-36h around each of the 15 month "
-         "boundaries; D: daily; M: 2018-2022; Y: 2014-2025), length 0..40h/70d/30mo/4y; long: rapid (quantum, start, end) with years 2015-2025 (2018-2022 / 2019-2021 when the coarsest unit is D / H) biased to month ends/leap days; "
-         "tov: (hour, unit) pairs; minmax: (quantum, shuffled view list); api: (quantum, noStandardView, timestamped bit list, query ranges). distinct = hash of that input. "
+         "boundaries; D: daily; M: 2018-2022; Y: 2014-2025), length 0..40h/70d/30mo/4y; edges: (quantum, start, end) with both endpoints within 2 finest units of a month/year boundary or 28 Feb, "
+         "years 2019-2021 (thorough 2015-2025), span <= 3 years (100 days / 4 days when the coarsest unit is D / H); long: rapid (quantum, start, end) with years 2015-2025 (2018-2022 / 2019-2021 when the coarsest unit is D / H) biased to month ends/leap days; "
+         "tov: (hour, unit) pairs; minmax: (quantum, shuffled view list); api: (quantum, noStandardView, timestamped bit list incl. stamps on boundary days, query ranges incl. ranges that end at the unit of a stored bit and start at a coarser-unit boundary 0-2 units earlier). distinct = hash of that input. "
          "non-trivial = the range crosses a month end, year end or Feb 29 or needs >= 3 view granularities; tov: hour >= 12 or a month-end/Feb/Dec date; "
          "minmax: >= 4 views incl. 'standard'; api: bits in >= 2 views and a query range cutting through the stored timestamps.",
     assumptions=["view names are decoded by the harness's own digit parser (not time.Parse layouts)",
@@ -21,6 +25,7 @@ PROP = dict(
     tags=["gt"],
     units=[
         U("window", ".", "^TestVerifC18_RangeWindow$", 0, 0, sq=4, sth=12, rapid=False),
+        U("edges", ".", "^TestVerifC18_RangeEdges$", 0, 0, sq=4, sth=12, rapid=False),
         U("long", ".", "^TestVerifC18_LongRanges$", 4000, 200000, sq=2, sth=6),
         U("tov", ".", "^TestVerifC18_TimeOfView$", 0, 0, sq=1, sth=1, rapid=False),
         U("minmax", ".", "^TestVerifC18_MinMaxViews$", 6000, 200000, sq=1, sth=4),
